@@ -57,7 +57,11 @@ def build(env, per_cell, psk_bits_all):
 
                 pskargs = dict(psk=psk, pskid=pskid) if mode in (1, 3) else {}
                 if mode in (2, 3):
+                    # immediately after the honest sender's setup (a memo keyed on public values would still be warm)
+                    impostor("public_half_only", mode, sks="$kI.sk", pks="$kS.pk", **pskargs)
                     impostor("other_keypair", mode, sks="$kI.sk", pks="$kI.pk", **pskargs)
+                    # honest again, then the impostor again: alternate so that any one-entry cache is hit both ways
+                    s.call("setup_s", mode=mode, pkr="$kR.pk", info=info, rng=g.rbytes(n), out="S_again", **m["sargs"])
                     impostor("public_half_only", mode, sks="$kI.sk", pks="$kS.pk", **pskargs)
                     impostor("unauthenticated_mode", 1 if mode == 3 else 0, **pskargs)
                 if mode in (1, 3):
@@ -76,6 +80,10 @@ def build(env, per_cell, psk_bits_all):
                     if pl > 64:
                         impostor("psk_prefix", mode, psk=cl.hexs(psk) + "^trunc:64", pskid=pskid, **auth)
                     impostor("no_psk", 2 if mode == 3 else 0, **auth)
+                if mode == 2:
+                    # the receiver's key objects parsed once, then asked "from kS?", "from kI?", "from kS?"
+                    s.call("setup_r_reuse", mode=2, skr="$kR.sk", enc="$S.enc", info=info, pks="$kS.pk", pks2="$kI.pk", pks3="$kS.pk", role="reuse")
+                    s.call("export", ctx="S", exctx="7265757365", len=32, role="reuse_sender")
                 # positive control last: the honest message still opens on the honest receiver
                 if sealing:
                     s.call("open", ctx="R", api="alloc", ct="$h.full", aad="a1", role="control")
@@ -114,6 +122,17 @@ def monitor(sess, extra):
             r.counts["evaluations"] += 1
         elif role == "impostor_sender":
             pend[(op.args["pair"], op.args["len"])] = op.ret.get("out") if op.ok() else None
+        elif role == "reuse" and op.ok():
+            pend["reuse"] = op
+        elif role == "reuse_sender" and op.ok() and "reuse" in pend:
+            ro = pend["reuse"]
+            r.counts["evaluations"] += 1
+            if ro.ret.get("v0") != op.ret["out"] or ro.ret.get("v2") != op.ret["out"]:
+                findings.append(("C08:reuse_honest_rejected", "a receiver reusing its parsed key objects does not share the honest sender's export", ro))
+            if ro.ret.get("v1") == op.ret["out"]:
+                findings.append(("C08:reuse_accepts_other_sender", "a receiver that reuses its parsed key objects and expects a DIFFERENT sender key derives the honest sender's secrets", ro))
+            else:
+                r.distinct.add((sess.ids[0], mode, "reused_objects"))
         elif role == "victim":
             mine = op.ret.get("out") if op.ok() else None
             theirs = pend.get((op.args["pair"], op.args["len"]))
@@ -150,6 +169,12 @@ def run(env):
     res = env.drive("impostors", cw.text())
     env.require_complete(res, "impostors")
     mr = env.pmap(monitor, res.sessions, workload="impostors")
+    from props.c13 import slice_text
+    # release build (no debug assertions) and the std-feature build (std-only code paths), a slice each in quick
+    for b in ("fast", "checked-std"):
+        res_b = env.drive("impostors", slice_text(cw.text(), env.seed % 3, 3) if env.quick() else cw.text(), build=b)
+        env.require_complete(res_b, "impostors/" + b)
+        env.pmap(monitor, res_b.sessions, workload="impostors")
     env.extra_cov["sessions"] = len(res.sessions)
     need = ["impostor:other_keypair", "impostor:public_half_only", "impostor:unauthenticated_mode", "impostor:psk_bit", "impostor:no_psk"]
     missing = [k for k in need if mr.counts[k] < 4]
